@@ -481,8 +481,12 @@ func genC02(o *cw) {
 		var p gen.Ex
 		switch g.r.Intn(4) {
 		case 0:
-			// parenthesised path with predicates
-			p = gen.Filter{E: gen.Paren{E: g.relPath(allAxes, 0, 2, 0)}, Preds: []gen.Ex{g.boolPred(depth - 1)}}
+			// parenthesised path with one or more predicates
+			f := gen.Filter{E: gen.Paren{E: g.relPath(allAxes, 0, 2, 0)}, Preds: []gen.Ex{g.boolPred(depth - 1)}}
+			for g.r.Chance(40) && len(f.Preds) < 3 {
+				f.Preds = append(f.Preds, g.boolPred(depth-1))
+			}
+			p = f
 		default:
 			pp := g.relPath(allAxes, depth, 3, 70)
 			// at least one predicate
